@@ -975,7 +975,10 @@ func NewTicker(d time.Duration) *time.Ticker {
 	selMu.Lock()
 	seed := selSeed
 	selMu.Unlock()
-	if seed == 0 || d <= 0 {
+	if seed == 0 || d <= 0 || d >= time.Minute {
+		// long periods keep their exact value: the hourly graph vacuum prunes by "now - retention", and the
+		// reference model computes that instant; the short-period tickers around it are offset, which is
+		// enough to keep them from firing at the same instant as the long one
 		return time.NewTicker(d)
 	}
 	k := tickerSeq.Add(1)
